@@ -23,7 +23,9 @@ const IMPOSTOR_CELLS: u64 = 2 * 2 * 2 * 2 * 3;
 const NOTYET_CELLS: u64 = IMPOSTOR_CELLS;
 /// ... and with a Certificate message that carries no X.509 certificate at all
 const GARBAGE_CELLS: u64 = IMPOSTOR_CELLS;
-pub const CELLS: u64 = MATRIX + TUNNEL_CELLS + IMPOSTOR_CELLS + NOTYET_CELLS + GARBAGE_CELLS;
+/// an https proxy and an origin of the same name, the proxy's certificate good, the origin's not: 3 x flags
+const SAMENAME_CELLS: u64 = 12;
+pub const CELLS: u64 = MATRIX + TUNNEL_CELLS + IMPOSTOR_CELLS + NOTYET_CELLS + GARBAGE_CELLS + SAMENAME_CELLS;
 
 #[derive(Clone, Copy, Debug, PartialEq, Eq)]
 enum Chain {
@@ -124,6 +126,23 @@ fn tunnel_cell(g: &mut G, ctx: &RunCtx, cell: u64) -> RunReport {
         "good" => (true, false),
         _ => (false, true),
     };
+    tunnel_run(ctx, cell, outer, inner, accept_certs, accept_hosts, outer_id, inner_id, "proxy.test", "wrong.test")
+}
+
+/// the https proxy and the origin behind it bear the same name (another port of the same machine, say): two
+/// TLS sessions to one name, two identities to authenticate - the proxy's good certificate says nothing about
+/// the origin's (a client that carries TLS session state from the first handshake into the second would resume
+/// instead of looking)
+fn same_name_tunnel_cell(g: &mut G, ctx: &RunCtx, cell: u64) -> RunReport {
+    let _ = g;
+    let inner = ["selfsigned", "expired", "unknown"][(cell % 3) as usize];
+    let accept_certs = (cell / 3) % 2 == 1;
+    let accept_hosts = (cell / 6) % 2 == 1;
+    tunnel_run(ctx, 1000 + cell, "good", inner, accept_certs, accept_hosts, (true, true), (false, true), "secure.test", "secure.test")
+}
+
+#[allow(clippy::too_many_arguments)]
+fn tunnel_run(ctx: &RunCtx, cell: u64, outer: &'static str, inner: &'static str, accept_certs: bool, accept_hosts: bool, outer_id: (bool, bool), inner_id: (bool, bool), proxy_host: &'static str, origin_host: &'static str) -> RunReport {
     let ok = |(chain, name): (bool, bool)| accept_certs || (chain && (name || accept_hosts));
     let want_ok = ok(outer_id) && ok(inner_id);
     let sim = Sim::new(ctx.sim_config());
@@ -132,8 +151,10 @@ fn tunnel_cell(g: &mut G, ctx: &RunCtx, cell: u64) -> RunReport {
     let inner_log = Arc::new(Mutex::new(TlsLog::default()));
     let proxy_log = Arc::new(Mutex::new(ProxyLog::default()));
     let proxy_ip: IpAddr = "10.0.0.9".parse().unwrap();
-    sim.add_host("proxy.test", vec![proxy_ip]);
-    sim.add_host("wrong.test", vec!["10.9.9.9".parse().unwrap()]);
+    sim.add_host(proxy_host, vec![proxy_ip]);
+    if origin_host != proxy_host {
+        sim.add_host(origin_host, vec!["10.9.9.9".parse().unwrap()]);
+    }
     {
         let seen = seen.clone();
         let (outer_log, inner_log, proxy_log) = (outer_log.clone(), inner_log.clone(), proxy_log.clone());
@@ -161,8 +182,8 @@ fn tunnel_cell(g: &mut G, ctx: &RunCtx, cell: u64) -> RunReport {
         );
     }
     let out = sim.run(|| {
-        let mut rb = attohttpc::get("https://wrong.test/private")
-            .proxy_settings(attohttpc::ProxySettings::builder().https_proxy(url::Url::parse("https://pu:pp@proxy.test:3129").unwrap()).build())
+        let mut rb = attohttpc::get(format!("https://{}/private", origin_host))
+            .proxy_settings(attohttpc::ProxySettings::builder().https_proxy(url::Url::parse(&format!("https://pu:pp@{}:3129", proxy_host)).unwrap()).build())
             .add_root_certificate(cert_of(tlspeer::CA_PEM))
             .header("X-Marker", "request-under-test");
         if accept_certs {
@@ -184,7 +205,7 @@ fn tunnel_cell(g: &mut G, ctx: &RunCtx, cell: u64) -> RunReport {
     });
     let mut stats = Stats::default();
     stats.absorb(&out.history);
-    let tag = format!("HttpsProxyTunnel:outer={}:inner={}:certs={}:hosts={}", outer, inner, accept_certs, accept_hosts);
+    let tag = format!("HttpsProxyTunnel{}:outer={}:inner={}:certs={}:hosts={}", if origin_host == proxy_host { ":same-name" } else { "" }, outer, inner, accept_certs, accept_hosts);
     let connect_seen = proxy_log.lock().unwrap().conns.iter().any(|c| !c.head.is_empty());
     let inner_plain: usize = inner_log.lock().unwrap().sessions.iter().map(|s| s.plaintext_in).sum();
     let verdict = match &out.result {
@@ -246,6 +267,9 @@ pub fn scenario(g: &mut G, ctx: &RunCtx) -> RunReport {
         // the matrix cell with the same name / flags / root / route, chain to the added root, flags on the
         // session - presented by somebody who does not hold the certificate's key
         let mut i = cell - MATRIX - TUNNEL_CELLS;
+        if i >= 3 * IMPOSTOR_CELLS {
+            return same_name_tunnel_cell(g, ctx, i - 3 * IMPOSTOR_CELLS);
+        }
         let special = [Special::Impostor, Special::NotYetValid, Special::GarbageCertificate][(i / IMPOSTOR_CELLS) as usize];
         i %= IMPOSTOR_CELLS;
         let mut take = |n: u64| {
